@@ -263,8 +263,41 @@ class FakeClf(object):
         return targets[0] if targets else None
 
 
+class FakeDevice(object):
+    """the least a real nfc.clf.ContactlessFrontend needs of its device: the simulated tag is the only thing in the field"""
+
+    def __init__(self, inner):
+        self.inner = inner        # FakeClf: fault injection, sector watch
+
+    def mute(self):
+        pass
+
+    def close(self):
+        pass
+
+    def sense_tta(self, target):
+        return self.inner.sense(target)
+
+    def send_cmd_recv_rsp(self, target, data, timeout):
+        return self.inner.exchange(data, timeout)
+
+    def get_max_send_data_size(self, target):
+        return 290
+
+    def get_max_recv_data_size(self, target):
+        return 290
+
+
+REAL_FRONTEND = [False]    # harness switch: put a real ContactlessFrontend (exchange(), sense()) between tag object and simulated tag
+
+
 def activate(clf):
     """a new tag object through nfc.tag.activate, as clf.connect() would create it"""
+    if REAL_FRONTEND[0]:
+        front = nfc.clf.ContactlessFrontend()
+        front.device = FakeDevice(clf)
+        front.target = clf.tag.target()
+        return nfc.tag.activate(front, front.target)
     return nfc.tag.activate(clf, clf.tag.target())
 
 
